@@ -10,6 +10,7 @@ import witness
 from pathsum import ERR, OK, SOME, St, show_term, strip_sites
 from skeleton import P, pid_name
 
+RERUN_ON_CONFIGS = ("dfm", "std")
 LEVEL = "other"
 RULE_TEXT = ("C03-V sibling agreement of the conversion impls in value.rs, arm by arm: for integer target T Decimal/Hexa"
              "decimal/Binary/Octal call T::from_str_radix (the callee's Self IS T) with radix 10/16/2/8 on the variant's own "
@@ -409,6 +410,8 @@ def rule_N(ck, lib):
 
 
 def rule_A(ck, A="C03-A", N="C03-N"):
+    if getattr(ck, "cfg_rerun", False):
+        return      # witness interfaces are compiled against the default configuration only
     count = 400 if ck.tier == "thorough" else 40
     fs, specs, failures = witness.build(ck, ck.seed, count)
     wit = fs.crate("wit.rlib")
